@@ -33,12 +33,12 @@ type concCfg struct {
 	Threshold int    `json:"threshold"`
 	Writers   int    `json:"writers"`
 	Pingers   int    `json:"pingers"`
-	Reader    string `json:"reader"`   // loop | closeread | none
-	Closer    string `json:"closer"`   // close | closenow | ctx | peerclose | none
-	PeerEcho  string `json:"peerecho"` // early | late | never
+	Reader    string `json:"reader"`    // loop | closeread | none
+	Closer    string `json:"closer"`    // close | closenow | ctx | peerclose | none
+	PeerEcho  string `json:"peerecho"`  // early | late | never
 	PeerPongs string `json:"peerpongs"` // normal | reorder | dup | withhold | foreign
-	WriteCap  int    `json:"writecap"` // transport buffer for library writes (0 = unbounded)
-	Yield     bool   `json:"yield"`    // Gosched at hooks
+	WriteCap  int    `json:"writecap"`  // transport buffer for library writes (0 = unbounded)
+	Yield     bool   `json:"yield"`     // Gosched at hooks
 }
 
 type wireLine struct {
@@ -69,13 +69,13 @@ type concRun struct {
 	sentMu sync.Mutex
 	sent   map[string]*sentMsg // key "w#seq"
 
-	peerGot   []string // keys of messages the peer reassembled, in order
-	peerBad   []string
-	peerSent  [][]byte // data messages the peer sent to the library, in order
-	libGot    [][]byte
-	libGotErr error
+	peerGot      []string // keys of messages the peer reassembled, in order
+	peerBad      []string
+	peerSent     [][]byte // data messages the peer sent to the library, in order
+	libGot       [][]byte
+	libGotErr    error
 	peerSawClose bool
-	peerEOF   chan struct{}
+	peerEOF      chan struct{}
 	pendingPings [][]byte
 }
 
@@ -166,7 +166,22 @@ func (r *concRun) peerLoop(rng *rand.Rand) {
 			r.logWire(l)
 			switch f.Op {
 			case ws.OpPing:
-				send(ws.Frame{Fin: true, Op: ws.OpPong, Payload: f.Payload})
+				// pongs that are NOT this ping's payload: other spellings of the same number, prefixes,
+				// the empty payload.  None of them may complete the Ping.
+				if r.cfg.PeerPongs == "foreign" || r.cfg.PeerPongs == "withhold" {
+					p := string(f.Payload)
+					for _, v := range []string{"0" + p, "+" + p, p + "0", " " + p, p + " ", "", p + p, "x"} {
+						if v != p {
+							send(ws.Frame{Fin: true, Op: ws.OpPong, Payload: []byte(v)})
+						}
+					}
+				}
+				if r.cfg.PeerPongs == "dup" {
+					send(ws.Frame{Fin: true, Op: ws.OpPong, Payload: f.Payload})
+				}
+				if r.cfg.PeerPongs != "withhold" {
+					send(ws.Frame{Fin: true, Op: ws.OpPong, Payload: f.Payload})
+				}
 			case ws.OpPong:
 			case ws.OpClose:
 				r.peerSawClose = true
@@ -368,6 +383,9 @@ func runConc(cfg concCfg, rep *Report, tr *ws.Tracer) *concRun {
 					defer cancel2()
 					return c.Ping(ctx2)
 				})
+				if err == nil && cfg.PeerPongs == "withhold" {
+					rep.miss("ping-returned-nil-although-its-pong-was-withheld", cfg, "the peer only sent pongs with other payloads")
+				}
 				if err != nil {
 					return
 				}
@@ -527,7 +545,7 @@ func genConcCfg(seed int64, i int) concCfg {
 		Reader:    pick("loop", "loop", "loop", "closeread", "none"),
 		Closer:    pick("close", "close", "closenow", "ctx", "peerclose", "none"),
 		PeerEcho:  pick("early", "early", "late", "never"),
-		PeerPongs: "normal",
+		PeerPongs: pick("normal", "normal", "foreign", "withhold", "dup"),
 		Yield:     rng.Intn(2) == 0,
 	}
 	if rng.Intn(3) == 0 {
@@ -551,6 +569,7 @@ func init() {
 		wireOut := fs.String("wire-trace", "", "output NDJSON for TraceWire")
 		par := fs.Int("par", 8, "executions in flight")
 		notrace := fs.Bool("notrace", false, "leave the hook sink nil (race-detector runs, rule R10)")
+		globalOrder := fs.Bool("global-order", false, "write the conn trace in the single global order (for TracePool) instead of per connection")
 		fs.Parse(args)
 		rep := newReport("conc")
 		tr := &ws.Tracer{}
@@ -599,7 +618,13 @@ func init() {
 			byConn[e.Conn] = append(byConn[e.Conn], e)
 		}
 		nev := 0
-		if *connOut != "" {
+		if *connOut != "" && *globalOrder {
+			os.Remove(*connOut)
+			nev = len(evs)
+			if err := ws.WriteNDJSON(*connOut, append([]websocket.VerifEvent{{Ev: "PoolReset"}}, evs...)); err != nil {
+				return err
+			}
+		} else if *connOut != "" {
 			os.Remove(*connOut)
 			var all []websocket.VerifEvent
 			for _, id := range order {
